@@ -33,6 +33,7 @@ class Node:
     group: tuple | None = None     # (first_node_idx, position) for multi-output ops
     has_saved: bool = False        # the torch op saves tensors for backward
     desc: str = ""
+    param: bool = False            # leaf realised as a torch.nn.Parameter (what `module.parameters()` yields)
     flip: bool = False             # leaf realised in the OTHER floating dtype than the one the program is built in
     layout: tuple | None = None    # leaf memory layout: ("perm", dims) = strides of a permuted tensor, ("step", k) = every
     #                                k-th element of a larger buffer; None = contiguous.  Values / shape are logical.
@@ -73,7 +74,10 @@ class Program:
         for i, nd in enumerate(self.nodes):
             if nd.kind == "leaf":
                 t = realise_leaf(nd, dtype)
-                t.requires_grad_(nd.rg)
+                if nd.param:
+                    t = torch.nn.Parameter(t, requires_grad=nd.rg)
+                else:
+                    t.requires_grad_(nd.rg)
             elif nd.kind == "aff":
                 if nd.group is not None:
                     first, pos = nd.group
@@ -108,6 +112,7 @@ class Program:
     def describe(self):
         return [f"{i}:{nd.kind}{list(nd.shape)}{'' if nd.rg else '!rg'} {nd.desc}"
                 + (f" layout={nd.layout}" if nd.layout else "") + (" other-dtype" if nd.flip else "")
+                + (" nn.Parameter" if nd.param else "")
                 for i, nd in enumerate(self.nodes)]
 
     def requires_grad(self, i):
@@ -153,6 +158,8 @@ class Program:
     # ---------------------------------------------------------------- construction helpers
     def add_leaf(self, shape, vals, rg=True, layout=None):
         self.nodes.append(Node("leaf", tuple(shape), rg, list(vals), desc="leaf", layout=layout))
+        # every fourth leaf or so is an nn.Parameter (decided from its content, so that no random stream is disturbed)
+        self.nodes[-1].param = (sum(abs(v) for v in vals) + len(self.nodes)) % 4 == 0
         return len(self.nodes) - 1
 
     def add_mul(self, a, b):
